@@ -17,7 +17,8 @@ Keys == {"k1", "k2", "kerr"}                   \* Twp/Rge/Sec strings; k1 is the
 Probes == {"plss_nodir", "plss_full", "tract_build", "trs_attrs", "trs_dict", "find_twprge", "plss_qq", "trslist",
            "plss_ocrlike", "tract_bareqq",     \* (texts that only the optional OCR / clean_qq patterns would read)
            "held_parse",                       \* parse() of an object that may have been created earlier, under other defaults
-           "cfg_parse"}                        \* a parse configured with a Config object the caller has used before
+           "cfg_parse",                        \* a parse configured with a Config object the caller has used before
+           "held_tract"}                       \* parse() of a tract the caller keeps (created at first use, maybe dry-run before)
 NS == {"n", "s"}   EW == {"e", "w"}
 Default == [ns |-> "n", ew |-> "w"]
 MutateVia == {"trs_to_dict_str", "trs_to_dict_obj", "tract_to_dict", "tracts_to_dict", "tracts_to_list", "flag_lists"}
@@ -35,37 +36,41 @@ Op(name, a, b) == [name |-> name, a |-> a, b |-> b]
 VARIABLES mc, usecache, cache, result, hist,
           held,       \* the MasterConfig under which the held (created, not yet parsed) description was made; NoHeld: none
           cfgobj,     \* what the caller's shared Config object says about the default directions (NoHeld: nothing)
-          asked       \* the layout of the probes' text has been asked for with a restricted list of candidates
-vars == <<mc, usecache, cache, result, hist, held, cfgobj, asked>>
+          asked,      \* the layout of the probes' text has been asked for with a restricted list of candidates
+          dry         \* the kept objects have been parsed with commit=False under other settings
+vars == <<mc, usecache, cache, result, hist, held, cfgobj, asked, dry>>
 Init == mc = Default /\ usecache = TRUE /\ cache = [k \in {} |-> "ok"] /\ result = Pure("trs_attrs", Default) /\ hist = <<>>
-        /\ held = NoHeld /\ cfgobj = NoHeld /\ asked = FALSE
+        /\ held = NoHeld /\ cfgobj = NoHeld /\ asked = FALSE /\ dry = FALSE
 
 Warm(c, ks) == IF usecache THEN [k \in DOMAIN c \cup ks |-> IF k \in DOMAIN c THEN c[k] ELSE "ok"] ELSE c
 Step(op) == Len(hist) < MaxOps /\ hist' = Append(hist, op)
-SetMC == \E n \in NS : \E e \in EW : mc' = [ns |-> n, ew |-> e] /\ Step(Op("set_mc", n, e)) /\ UNCHANGED <<usecache, cache, result, held, cfgobj, asked>>
-RestoreMC == mc' = Default /\ Step(Op("restore_mc", "-", "-")) /\ UNCHANGED <<usecache, cache, result, held, cfgobj, asked>>
-ClearCache == cache' = [k \in {} |-> "ok"] /\ Step(Op("clear_cache", "-", "-")) /\ UNCHANGED <<mc, usecache, result, held, cfgobj, asked>>
-SetUseCache == \E b \in {"on", "off"} : usecache' = (b = "on") /\ Step(Op("use_cache", b, "-")) /\ UNCHANGED <<mc, cache, result, held, cfgobj, asked>>
-ParseOther == \E o \in Others : cache' = Warm(cache, Warms(o)) /\ Step(Op("parse_other", o, "-")) /\ UNCHANGED <<mc, usecache, result, held, cfgobj, asked>>
-MakeTRS == \E k \in Keys : cache' = Warm(cache, {k}) /\ Step(Op("make_trs", k, "-")) /\ UNCHANGED <<mc, usecache, result, held, cfgobj, asked>>
+SetMC == \E n \in NS : \E e \in EW : mc' = [ns |-> n, ew |-> e] /\ Step(Op("set_mc", n, e)) /\ UNCHANGED <<usecache, cache, result, held, cfgobj, asked, dry>>
+RestoreMC == mc' = Default /\ Step(Op("restore_mc", "-", "-")) /\ UNCHANGED <<usecache, cache, result, held, cfgobj, asked, dry>>
+ClearCache == cache' = [k \in {} |-> "ok"] /\ Step(Op("clear_cache", "-", "-")) /\ UNCHANGED <<mc, usecache, result, held, cfgobj, asked, dry>>
+SetUseCache == \E b \in {"on", "off"} : usecache' = (b = "on") /\ Step(Op("use_cache", b, "-")) /\ UNCHANGED <<mc, cache, result, held, cfgobj, asked, dry>>
+ParseOther == \E o \in Others : cache' = Warm(cache, Warms(o)) /\ Step(Op("parse_other", o, "-")) /\ UNCHANGED <<mc, usecache, result, held, cfgobj, asked, dry>>
+MakeTRS == \E k \in Keys : cache' = Warm(cache, {k}) /\ Step(Op("make_trs", k, "-")) /\ UNCHANGED <<mc, usecache, result, held, cfgobj, asked, dry>>
 \* the caller modifies a dict / list it got from a conversion function
 Mutate == \E k \in {"k1", "k2"} : \E via \in MutateVia :
             /\ cache' = IF Fault = "share_dict" /\ via = "trs_to_dict_obj" /\ k \in DOMAIN cache
                         THEN [cache EXCEPT ![k] = "bad"] ELSE Warm(cache, {k})
-            /\ Step(Op("mutate", k, via)) /\ UNCHANGED <<mc, usecache, result, held, cfgobj, asked>>
+            /\ Step(Op("mutate", k, via)) /\ UNCHANGED <<mc, usecache, result, held, cfgobj, asked, dry>>
 \* a description is created with wait_to_parse under the defaults in force now, and kept
-Hold == held' = mc /\ Step(Op("hold", "-", "-")) /\ UNCHANGED <<mc, usecache, cache, result, cfgobj, asked>>
+Hold == held' = mc /\ Step(Op("hold", "-", "-")) /\ UNCHANGED <<mc, usecache, cache, result, cfgobj, asked, dry>>
 \* the caller builds a tract from components with explicit default directions, handing in the shared Config object:
 \* the library reads the object, it does not write to it
 UseCfg == /\ cfgobj' = (IF Fault = "cfg_obj_written" THEN [ns |-> "s", ew |-> "e"] ELSE cfgobj)
           /\ cache' = Warm(cache, {"k1"})
-          /\ Step(Op("use_cfg", "s", "e")) /\ UNCHANGED <<mc, usecache, result, held, asked>>
+          /\ Step(Op("use_cfg", "s", "e")) /\ UNCHANGED <<mc, usecache, result, held, asked, dry>>
 \* deduce_layout(candidates=[...]) on the text the description probes use: a question, it leaves nothing behind
-AskLayout == asked' = TRUE /\ Step(Op("ask_layout", "-", "-")) /\ UNCHANGED <<mc, usecache, cache, result, held, cfgobj>>
+AskLayout == asked' = TRUE /\ Step(Op("ask_layout", "-", "-")) /\ UNCHANGED <<mc, usecache, cache, result, held, cfgobj, dry>>
+\* parse(commit=False, other settings) on the kept description's tracts and on the kept tract: a preview, nothing stays
+DryRun == dry' = TRUE /\ Step(Op("dry_run", "-", "-")) /\ UNCHANGED <<mc, usecache, cache, result, held, cfgobj, asked>>
 Probe == \E p \in Probes :
            /\ result' = (IF \E k \in Reads(p) : k \in DOMAIN cache /\ cache[k] = "bad" THEN [p |-> p, ns |-> "corrupt", ew |-> "corrupt"]
                          ELSE IF Fault = "freeze_default" THEN Pure(p, Default)
                          ELSE IF Fault = "held_keeps_defaults" /\ p = "held_parse" /\ held # NoHeld THEN Pure(p, held)
+                         ELSE IF Fault = "dry_run_leaves_flags" /\ dry /\ p = "held_tract" THEN [p |-> p, ns |-> "corrupt", ew |-> "corrupt"]
                          ELSE IF p = "cfg_parse" /\ cfgobj # NoHeld THEN Pure(p, cfgobj)
                          ELSE IF Fault = "layout_remembered" /\ asked /\ p \in {"plss_full", "plss_nodir"}
                               THEN [p |-> p, ns |-> "corrupt", ew |-> "corrupt"]
@@ -73,8 +78,8 @@ Probe == \E p \in Probes :
            /\ cache' = Warm(cache, Reads(p))
            \* (held_parse parses the held object, or a new one if there is none; the object stays)
            /\ held' = IF p = "held_parse" /\ held = NoHeld THEN mc ELSE held
-           /\ Step(Op("probe", p, "-")) /\ UNCHANGED <<mc, usecache, cfgobj, asked>>
-Next == SetMC \/ RestoreMC \/ ClearCache \/ SetUseCache \/ ParseOther \/ MakeTRS \/ Mutate \/ Hold \/ UseCfg \/ AskLayout \/ Probe
+           /\ Step(Op("probe", p, "-")) /\ UNCHANGED <<mc, usecache, cfgobj, asked, dry>>
+Next == SetMC \/ RestoreMC \/ ClearCache \/ SetUseCache \/ ParseOther \/ MakeTRS \/ Mutate \/ Hold \/ UseCfg \/ AskLayout \/ DryRun \/ Probe
 Spec == Init /\ [][Next]_vars
 
 CacheSound == \A k \in DOMAIN cache : cache[k] = "ok"
@@ -83,7 +88,7 @@ RestoreRestores == Len(hist) > 0 /\ hist[Len(hist)].name = "restore_mc" => mc = 
 
 \* the invariants read only the last entry of the history: states that differ in older entries alone are one state for
 \* the model-checking runs (the runs that print behaviours keep the whole history)
-LastOnly == <<mc, usecache, cache, result, held, cfgobj, asked, Len(hist), IF hist = <<>> THEN Op("-", "-", "-") ELSE hist[Len(hist)]>>
+LastOnly == <<mc, usecache, cache, result, held, cfgobj, asked, dry, Len(hist), IF hist = <<>> THEN Op("-", "-", "-") ELSE hist[Len(hist)]>>
 
 EndsWithProbe == Len(hist) = MaxOps /\ hist[Len(hist)].name = "probe"
 EmitCase == (EmitCases /\ EndsWithProbe) => PrintT(<<"CASE", ToJson([ops |-> hist])>>)
